@@ -56,6 +56,10 @@ pub struct Case {
     /// not end the run: the run goes on looking for this property's own symptom
     #[serde(default)]
     pub focus: String,
+    /// one code is stored in the WasmKeeper BEFORE its generators are configured and before it is handed to
+    /// the AppBuilder (the keeper's own builder steps must keep it)
+    #[serde(default)]
+    pub prestore: bool,
     pub ops: Vec<Op>,
 }
 
@@ -122,13 +126,14 @@ impl Sim {
         let n_den = case.n_denoms.clamp(1, 4);
         let n_val = case.n_validators.min(3);
         let mut names = Names { prefix: prefix.to_string(), ..Default::default() };
-        let plain = (case.plain_accounts as u32).min(3).min(n_acc.saturating_sub(1));
+        let plain = (case.plain_accounts as u32).min(4).min(n_acc.saturating_sub(1));
+        // (the fourth one is the empty string)
         // the third kind: a valid bech32 address of this chain written in capitals (it canonicalizes, but does
         // not validate; as a sender it is just another account)
         let shouting = api.addr_make("shouting").to_string().to_uppercase();
         for i in 0..n_acc {
             if i >= n_acc - plain {
-                names.accounts.push(["owner", "OWNER", shouting.as_str()][(n_acc - 1 - i) as usize].to_string());
+                names.accounts.push(["owner", "OWNER", shouting.as_str(), ""][(n_acc - 1 - i) as usize].to_string());
             } else {
                 names.accounts.push(api.addr_make(&format!("account{}", i)).to_string());
             }
@@ -229,13 +234,21 @@ impl Sim {
         let init_bank = model.s.bank.clone();
         let unbonding = case.unbonding_secs;
         let validators = names.validators.clone();
+        let mut prestored: Option<u64> = None;
         let app: SimApp = BasicAppBuilder::<SimMsg, SimQuery>::new_custom()
             .with_api(api)
             .with_storage(SimStorage::new())
             .with_bank(RecBank { inner: BankKeeper::new(), world: world.clone() })
             .with_wasm(RecWasm {
                 inner: {
-                    let k = if case.adv_addr { WasmKeeper::new().with_address_generator(crate::contract::AdvAddrGen) } else { WasmKeeper::new() };
+                    let mut k = WasmKeeper::new();
+                    if case.prestore {
+                        use cw_multi_test::Wasm;
+                        let code = make_code(CodeKind::Direct, 0, &world, None);
+                        prestored = Some(k.store_code(Addr::unchecked(names.accounts[0].clone()), code));
+                    }
+                    // (the generators are set even when they are the defaults, so that the builder steps run)
+                    let k = if case.adv_addr { k.with_address_generator(crate::contract::AdvAddrGen) } else { k.with_address_generator(cw_multi_test::SimpleAddressGenerator) };
                     if case.creator_checksums {
                         k.with_checksum_generator(crate::contract::CreatorChecksums)
                     } else {
@@ -269,7 +282,34 @@ impl Sim {
                         .unwrap();
                 }
             });
-        Sim {
+        let mut early: Vec<(String, String)> = vec![];
+        if let Some(id) = prestored {
+            // the code stored in the keeper before it was configured: id 1, usable like any other
+            let creator = names.accounts[0].clone();
+            world.0.borrow_mut().plan_suspended = true;
+            let info = app.wrap().query_wasm_code_info(id);
+            world.0.borrow_mut().plan_suspended = false;
+            let _ = world.take_module_calls();
+            let checksum = match info {
+                Ok(i) => {
+                    if i.creator.as_str() != creator {
+                        early.push(("code_info".to_string(), format!("the code stored in the keeper before the app was built reports creator {} (expected {})", i.creator, creator)));
+                    }
+                    i.checksum.to_hex()
+                }
+                Err(e) => {
+                    early.push(("code_info".to_string(), format!("the code stored in the keeper before its generators were set (id {}) is gone after the build: {}", id, e)));
+                    String::new()
+                }
+            };
+            if id != 1 {
+                early.push(("code_id".to_string(), format!("the first code stored in a fresh keeper got id {}", id)));
+            }
+            model.codes.insert(id, MCode { tag: 0, kind: CodeKind::Direct, creator, checksum });
+            model.names.codes.push(id);
+            world.0.borrow_mut().names.codes.push(id);
+        }
+        let mut sim = Sim {
             app,
             world,
             model,
@@ -285,7 +325,11 @@ impl Sim {
             caching,
             custom_execs_seen: vec![],
             custom_queries_seen: vec![],
+        };
+        for (class, detail) in early {
+            sim.v(&["C11", "C20"], &class, detail);
         }
+        sim
     }
 
     /// Function-pointer contracts find their world through a thread-local: point it at this instance.
@@ -1596,6 +1640,13 @@ impl Sim {
                 if st.get(k).as_ref() != Some(v) {
                     errs.push(format!("contract_storage({}).get({}) differs from the model", a, hex(k)));
                 }
+            }
+            // the same words cut into three namespace levels name ANOTHER window, which nothing ever wrote to
+            // (and looking into it must not disturb anything: the next steps run on the right window)
+            drop(st);
+            let other = self.app.prefixed_multilevel_storage(&[b"wasm", b"contract_data", a.as_bytes()]);
+            if other.range(None, None, cosmwasm_std::Order::Ascending).next().is_some() {
+                errs.push(format!("the three-level view [wasm, contract_data, {}] is not empty", a));
             }
         }
         for e in errs {
